@@ -12,6 +12,7 @@
           (any matrix size).  Part 2: theorems about the Lean port of tie-and-transfer.
 -/
 import VotelibProofs.Lemmas.Biprop
+import VotelibProofs.Lemmas.BipropInit
 namespace VL.C07
 open VL VL.Biprop Finset
 
@@ -164,19 +165,8 @@ theorem infeasibleCheckL_sound (votes : Mat Rat) (rowT colT S T : List Nat)
 
 /-! ### Part 2 — the port of tie-and-transfer (`VL.Biprop.evaluate`) -/
 
-theorem votesOk_nonneg {V : Mat Rat} (h : votesOk V = true) : ∀ i j, 0 ≤ vget V i j := by
-  intro i j
-  simp only [votesOk, Bool.and_eq_true, List.all_eq_true, decide_eq_true_eq] at h
-  unfold vget
-  simp only [List.getD_eq_getElem?_getD]
-  cases hi : V[i]? with
-  | none => simp
-  | some r =>
-    have hr : r ∈ V := List.mem_of_getElem? hi
-    simp only [Option.getD_some]
-    cases hj : r[j]? with
-    | none => simp
-    | some v => simpa using h.2 r hr v (List.mem_of_getElem? hj)
+theorem votesOk_nonneg {V : Mat Rat} (h : votesOk V = true) : ∀ i j, 0 ≤ vget V i j :=
+  votes_nonneg_of_ok h
 
 theorem stateOk_iff {q : Rat} {V : Mat Rat} {s : State} :
     stateOk q V s = true ↔ shapeOk s.x V.length (nCols V) = true ∧ LoopInv q V V.length (nCols V) s := by
@@ -403,12 +393,220 @@ theorem evaluate_ok_sound {div : Nat → Rat} {q : Rat} {V : Mat Rat} {total fue
         simp only at h
         exact ⟨s0, tgt, rfl, Or.inr ⟨rfl, rfl⟩, run_ok_sound hq1 hV fuel s0 0 [] o (hinit s0 hs0) h⟩
 
+/-- the divisor functions of the code as it is now (regenerated from `component/divisor.py` on every run) are signpost
+    sequences: D'Hondt with `q = 0` … -/
+theorem d_hondt_signpostDiv : SignpostDiv Gen.Divisor.d_hondt 0 :=
+  ⟨le_refl _, by norm_num, 1, by norm_num, fun s => by simp [Gen.Divisor.d_hondt]⟩
+
+/-- … and Sainte-Laguë with `q = 1/2` (factor 2) -/
+theorem sainte_lague_signpostDiv : SignpostDiv Gen.Divisor.sainte_lague (1/2) :=
+  ⟨by norm_num, by norm_num, 2, by norm_num, fun s => by simp [Gen.Divisor.sainte_lague]; ring⟩
+
+/-- **The state before the loop is consistent**: for every rectangular non-negative vote matrix with at least one
+    vote, the initial party-proportional solution (`_initial_solution`, including the spreading of a `Tie` over the
+    tied districts — fix 7aec924) with the initial multipliers (`_initial_party_coefs`, including the coefficient 1
+    of a party without votes — fix 514f123) has every cell between its signposts. -/
+theorem initState_consistent {div : Nat → Rat} {q : Rat} (hdiv : SignpostDiv div q) {V : Mat Rat} {total : Nat}
+    {s0 : State} (hV : votesOk V = true) (hpos : hasVotes V = true) (h : initState div q V total = .ok s0) :
+    stateOk q V s0 = true := initState_ok hdiv hV hpos h
+
+/-- **Partial correctness of the ported evaluator, without any semantic hypothesis**: for a divisor rule in signpost
+    form (both rules of the property), every rectangular non-negative vote matrix with at least one vote, every seat
+    total, every way of giving the district seats and any fuel — if `evaluate` returns a seat matrix, it meets the
+    district targets, keeps the party totals of the initial party-proportional solution, seats no zero-vote cell, and
+    the final multipliers are positive and make every cell a signpost rounding. -/
+theorem evaluate_sound {div : Nat → Rat} {q : Rat} (hdiv : SignpostDiv div q) {V : Mat Rat} {total fuel : Nat}
+    {rows : Option (List Nat)} {o : Outcome} (hV : votesOk V = true) (hpos : hasVotes V = true)
+    (h : evaluate div q V total rows fuel = .ok o) :
+    ∃ s0 tgt, initState div q V total = .ok s0 ∧
+      (rows = some tgt ∨ (rows = none ∧ districtSeats div V total = .ok tgt)) ∧
+      shapeOk o.final.x V.length (nCols V) = true ∧
+      (∀ i < V.length, ∑ j ∈ range (nCols V), mget o.final.x i j = tgt.getD i 0) ∧
+      (∀ j, ∑ i ∈ range V.length, mget o.final.x i j = ∑ i ∈ range V.length, mget s0.x i j) ∧
+      (∀ i < V.length, ∀ j < nCols V, vget V i j = 0 → mget o.final.x i j = 0) ∧
+      (∀ i < V.length, 0 < o.final.dc.getD i 0) ∧ (∀ j < nCols V, 0 < o.final.pc.getD j 0) ∧
+      (∀ i < V.length, ∀ j < nCols V,
+        isRounding q (vget V i j * o.final.dc.getD i 0 * o.final.pc.getD j 0) (mget o.final.x i j)) :=
+  evaluate_ok_sound hdiv.q_lt_one hV (fun _ hs0 => initState_ok hdiv hV hpos hs0) h
+
+/-- **Both marginals of a returned matrix.**  Party totals equal the highest-averages apportionment `partySeats` of the
+    overall party votes (which hands out exactly `total` seats); district totals equal the district apportionment
+    (given explicitly, or `districtSeats`: highest averages over the district totals, handing out `total` seats). -/
+theorem evaluate_marginals {div : Nat → Rat} {q : Rat} {V : Mat Rat} {total fuel : Nat}
+    {rows : Option (List Nat)} {o : Outcome} (h : evaluate div q V total rows fuel = .ok o) :
+    ∃ ps tgt, partySeats div V total = .ok ps ∧ ps.sum = total ∧ ps.length = nCols V ∧
+      (rows = some tgt ∨ (rows = none ∧ districtSeats div V total = .ok tgt ∧ tgt.sum = total ∧
+        tgt.length = V.length)) ∧
+      (∀ j < nCols V, ∑ i ∈ range V.length, mget o.final.x i j = ps.getD j 0) ∧
+      (∀ i < V.length, ∑ j ∈ range (nCols V), mget o.final.x i j = tgt.getD i 0) := by
+  unfold evaluate at h
+  cases hs0 : initState div q V total with
+  | error e => rw [hs0] at h; simp at h
+  | ok s0 =>
+    rw [hs0] at h
+    simp only at h
+    -- the initial solution and the upper apportionment it was built from
+    have hinit : ∃ ps, partySeats div V total = .ok ps ∧ initialSolution div V total = .ok s0.x := by
+      unfold initState at hs0
+      cases hx : initialSolution div V total with
+      | error e => rw [hx] at hs0; simp at hs0
+      | ok x0 =>
+        rw [hx] at hs0
+        simp only [Except.ok.injEq] at hs0
+        subst hs0
+        have hx' := hx
+        unfold initialSolution at hx'
+        cases hps : partySeats div V total with
+        | error e => rw [hps] at hx'; simp at hx'
+        | ok ps => exact ⟨ps, rfl, rfl⟩
+    obtain ⟨ps, hps, hx0⟩ := hinit
+    have hshape0 : shapeOk s0.x V.length (nCols V) = true := by
+      have := hx0
+      unfold initialSolution at this
+      rw [hps] at this
+      simp only at this
+      cases hcols : (List.range (nCols V)).mapM (fun j => initialColumn div V j (ps.getD j 0)) with
+      | error e => rw [hcols] at this; simp at this
+      | ok cols =>
+        rw [hcols] at this
+        simp only [Except.ok.injEq] at this
+        have hclen := (mapM_except_ok _ _ _ hcols).1
+        rw [List.length_range] at hclen
+        rw [shapeOk_iff, ← this]
+        refine ⟨by simp, ?_⟩
+        intro r hr
+        obtain ⟨i, _, rfl⟩ := List.mem_map.mp hr
+        simp [hclen]
+    have hcols0 := initialSolution_cols hps hx0
+    obtain ⟨hpsum, hpslen⟩ := partySeats_total hps
+    cases rows with
+    | some l =>
+      simp only at h
+      refine ⟨ps, l, hps, hpsum, hpslen, Or.inl rfl, ?_, run_ok_rows fuel s0 0 [] o hshape0 h⟩
+      intro j hj
+      rw [(run_preserves_columns fuel s0 0 [] o hshape0 h).2 j, hcols0 j hj]
+    | none =>
+      simp only at h
+      cases hd : districtSeats div V total with
+      | error e => rw [hd] at h; simp at h
+      | ok tgt =>
+        rw [hd] at h
+        simp only at h
+        obtain ⟨ht1, ht2⟩ := districtSeats_total hd
+        refine ⟨ps, tgt, hps, hpsum, hpslen, Or.inr ⟨rfl, rfl, ht1, ht2⟩, ?_, run_ok_rows fuel s0 0 [] o hshape0 h⟩
+        intro j hj
+        rw [(run_preserves_columns fuel s0 0 [] o hshape0 h).2 j, hcols0 j hj]
+
+/-- **The party marginal is the divisor-method apportionment of the overall party votes** (textbook characterisation):
+    `partySeats` hands out exactly `total` seats and a common positive multiplier makes every party's seat count a
+    signpost rounding of its overall votes × multiplier. -/
+theorem partySeats_divisor_method {div : Nat → Rat} {q : Rat} (hdiv : SignpostDiv div q) {V : Mat Rat} {total : Nat}
+    {ps : List Nat} (hV : votesOk V = true) (hpos : hasVotes V = true) (h : partySeats div V total = .ok ps) :
+    ps.sum = total ∧ ∃ c : Rat, 0 < c ∧
+      ∀ j < nCols V, isRounding q (sumRat (colOf V j) * c) (ps.getD j 0) := by
+  have hshapeV : shapeOk V V.length (nCols V) = true := by
+    simp only [votesOk, Bool.and_eq_true] at hV; exact hV.1
+  have hnn := votes_nonneg_of_ok hV
+  unfold partySeats at h
+  cases hr : haEvaluate div (colTotals V) total with
+  | error e => rw [hr] at h; simp at h
+  | ok r =>
+    rw [hr] at h
+    simp only at h
+    split at h
+    · simp at h
+    · rename_i hnt
+      simp only [Except.ok.injEq] at h
+      have htn : r.tie = none := by
+        cases ht : r.tie with
+        | none => rfl
+        | some bc => rw [ht] at hnt; simp at hnt
+      have hctl : (colTotals V).length = nCols V := by simp [colTotals]
+      have hct : ∀ j < nCols V, (colTotals V).getD j 0 = sumRat (colOf V j) := by
+        intro j hj; unfold colTotals; rw [getD_map_range _ _ _ _ hj]
+      have hctnn : ∀ k, 0 ≤ (colTotals V).getD k 0 := by
+        intro k
+        by_cases hk : k < nCols V
+        · rw [hct k hk]
+          apply sumRat_nonneg
+          intro a ha
+          obtain ⟨i, _, rfl⟩ := mem_colOf ha
+          exact hnn i k
+        · rw [List.getD_eq_getElem?_getD, List.getElem?_eq_none (by omega)]; simp
+      obtain ⟨i0, hi0, j0, hj0, hp0⟩ := hasVotes_exists hshapeV hpos
+      have hex : ∃ k < (colTotals V).length, 0 < (colTotals V).getD k 0 := by
+        refine ⟨j0, by omega, ?_⟩
+        rw [hct j0 hj0]
+        apply sumRat_pos
+        · intro a ha
+          obtain ⟨i, _, rfl⟩ := mem_colOf ha
+          exact hnn i j0
+        · refine ⟨vget V i0 j0, ?_, hp0⟩
+          rw [← getD_colOf, List.getD_eq_getElem?_getD,
+            List.getElem?_eq_getElem (by rw [length_colOf]; exact hi0)]
+          exact List.getElem_mem _
+      obtain ⟨hsum, c, hc, hround⟩ := haEvaluate_divisor_method hdiv hctnn hex hr htn
+      rw [h] at hsum hround
+      refine ⟨hsum, c, hc, fun j hj => ?_⟩
+      have := hround j (by omega)
+      rw [hct j hj] at this
+      exact this
+
+/-- **The district marginal, when districts are apportioned by the same divisor rule, is the divisor-method
+    apportionment of the district totals.** -/
+theorem districtSeats_divisor_method {div : Nat → Rat} {q : Rat} (hdiv : SignpostDiv div q) {V : Mat Rat}
+    {total : Nat} {tgt : List Nat} (hV : votesOk V = true) (hpos : hasVotes V = true)
+    (h : districtSeats div V total = .ok tgt) :
+    tgt.sum = total ∧ ∃ c : Rat, 0 < c ∧
+      ∀ i < V.length, isRounding q (sumRat (V.getD i []) * c) (tgt.getD i 0) := by
+  have hrows : ∀ r ∈ V, ∀ a ∈ r, (0 : Rat) ≤ a := by
+    simp only [votesOk, Bool.and_eq_true, List.all_eq_true, decide_eq_true_eq] at hV
+    exact hV.2
+  unfold districtSeats at h
+  cases hr : haEvaluate div (rowTotals V) total with
+  | error e => rw [hr] at h; simp at h
+  | ok r =>
+    rw [hr] at h
+    simp only at h
+    split at h
+    · simp at h
+    · rename_i hnt
+      simp only [Except.ok.injEq] at h
+      have htn : r.tie = none := by
+        cases ht : r.tie with
+        | none => rfl
+        | some bc => rw [ht] at hnt; simp at hnt
+      have hrt : ∀ i < V.length, (rowTotals V).getD i 0 = sumRat (V.getD i []) := by
+        intro i hi
+        simp [rowTotals, List.getD_eq_getElem?_getD, List.getElem?_eq_getElem hi]
+      have hrtnn : ∀ k, 0 ≤ (rowTotals V).getD k 0 := by
+        intro k
+        by_cases hk : k < V.length
+        · rw [hrt k hk]
+          apply sumRat_nonneg
+          rw [List.getD_eq_getElem?_getD, List.getElem?_eq_getElem hk]
+          exact hrows _ (List.getElem_mem hk)
+        · rw [List.getD_eq_getElem?_getD, List.getElem?_eq_none (by simp [rowTotals]; omega)]; simp
+      have hex : ∃ k < (rowTotals V).length, 0 < (rowTotals V).getD k 0 := by
+        simp only [hasVotes, List.any_eq_true, decide_eq_true_eq] at hpos
+        obtain ⟨r', hr', v, hv, hvpos⟩ := hpos
+        obtain ⟨i, hi, rfl⟩ := List.mem_iff_getElem.mp hr'
+        refine ⟨i, by simpa [rowTotals] using hi, ?_⟩
+        rw [hrt i hi, List.getD_eq_getElem?_getD, List.getElem?_eq_getElem hi]
+        exact sumRat_pos _ (hrows _ hr') ⟨v, hv, hvpos⟩
+      obtain ⟨hsum, c, hc, hround⟩ := haEvaluate_divisor_method hdiv hrtnn hex hr htn
+      rw [h] at hsum hround
+      refine ⟨hsum, c, hc, fun i hi => ?_⟩
+      have := hround i (by simpa [rowTotals] using hi)
+      rw [hrt i hi] at this
+      exact this
+
 /-! ### non-vacuity: concrete inputs that meet the hypotheses and exercise every branch -/
 
 /-- the witness of fix 7aec924 (tie inside the per-party initial allocation, one transfer) -/
 def exV : Mat Rat := [[3, 2], [5, 10], [3, 2]]
 
-example : votesOk exV = true := by decide +kernel
+example : votesOk exV = true ∧ hasVotes exV = true := by decide +kernel
 example : (initState Gen.Divisor.d_hondt 0 exV 10).toOption.map (stateOk 0 exV) = some true := by decide +kernel
 example : (evaluate Gen.Divisor.d_hondt 0 exV 10 none 100).toOption.map (fun o => (o.final.x, o.transfers))
     = some ([[1, 1], [2, 4], [1, 1]], 1) := by decide +kernel
@@ -421,7 +619,7 @@ example : bipropCheckL 0 exV [2, 6, 2] [4, 6] [[1, 1], [2, 5], [1, 0]] [1, 1, 1]
 
 /-- Sainte-Laguë, zero cells, one transfer and three multiplier updates -/
 def exW : Mat Rat := [[30, 0, 5], [0, 20, 10], [7, 8, 40]]
-example : votesOk exW = true := by decide +kernel
+example : votesOk exW = true ∧ hasVotes exW = true := by decide +kernel
 example : (initState Gen.Divisor.sainte_lague (1/2) exW 9).toOption.map (stateOk (1/2) exW) = some true := by
   decide +kernel
 example : (evaluate Gen.Divisor.sainte_lague (1/2) exW 9 none 100).toOption.map
